@@ -157,18 +157,43 @@ fn check(c: &Case, info: &mut CaseInfo) -> CheckResult {
         Case::Binary(v) => {
             info.label("binary");
             let got = postcard::take_from_bytes::<BaseId>(v).ok();
-            let want = if !v.is_empty() && v[0] == 32 && v.len() >= 33 {
+            // canonical form: one length byte 32, then the 32 bytes: must be accepted unchanged
+            let canonical = if !v.is_empty() && v[0] == 32 && v.len() >= 33 {
                 let mut b = [0u8; 32];
                 b.copy_from_slice(&v[1..33]);
                 Some(b)
             } else {
                 None
             };
-            ensure!(
-                got.as_ref().map(|(i, _)| *i.as_array()) == want,
-                "binary deserialization accepted a wrong length or changed bytes",
-                "input={v:?} got={got:?}"
-            );
+            if let Some(b) = canonical {
+                ensure!(
+                    got.as_ref().map(|(i, _)| *i.as_array()) == Some(b),
+                    "binary deserialization refused or changed a canonical encoding",
+                    "input={v:?} got={got:?}"
+                );
+            }
+            // whatever is accepted must be a length prefix of 32 (postcard tolerates padded varints) followed
+            // by exactly the bytes returned
+            if let Some((id, rest)) = &got {
+                let mut pos = 0usize;
+                let mut len: u128 = 0;
+                let mut shift = 0;
+                loop {
+                    let Some(x) = v.get(pos) else { break };
+                    pos += 1;
+                    len |= u128::from(x & 0x7f) << shift;
+                    shift += 7;
+                    if x & 0x80 == 0 || shift > 70 {
+                        break;
+                    }
+                }
+                ensure!(
+                    len == 32 && v.len() >= pos + 32 && v[pos..pos + 32] == id.as_array()[..] && rest.len() == v.len() - pos - 32,
+                    "binary deserialization accepted a wrong length or changed bytes",
+                    "input={v:?} got={got:?}"
+                );
+            }
+            let want = got.as_ref().map(|(i, _)| *i.as_array());
             if want.is_some() {
                 info.nontrivial();
             }
